@@ -164,3 +164,33 @@ m("c12-swap-ED-size12", ["C12"], C, "                elif x in ('E', 'Q'):\n    
 m("c12-api-drops-user", ["C12"], S, "        return self.ComplexityObject.reduce_alphabet(\n            self.seq, alphabetSize, userAlphabet)", "        return self.ComplexityObject.reduce_alphabet(\n            self.seq, alphabetSize)")
 m("c12-keep-set-literal", ["C12"], C, "                if x in ('L', 'M'):\n                    aa.append('L')", "                if x in {'M', 'L'}:\n                    aa.append('L')", kind="keep")
 m("c12-keep-H-string", ["C12"], C, "                elif x in ('H'):", "                elif x == 'H':", kind="keep")
+
+# ------------------------------------------------------------------ C13 (construction)
+m("c13-no-validate", ["C13"], P, "self.SeqObj = Sequence(sequence, validateSeq=True)", "self.SeqObj = Sequence(sequence)")
+m("c13-upper-after", ["C13"], S, "            seq = seq.upper()\n            seq = self.validateSequence(seq)", "            seq = self.validateSequence(seq)\n            seq = seq.upper()")
+m("c13-whitelist-BXU", ["C13"], S, "        AAs = list(data.aminoacids.ONE_TO_THREE.keys())\n        pos = 0", "        AAs = list(data.aminoacids.ONE_TO_THREE.keys()) + ['B', 'X', 'U']\n        pos = 0")
+m("c13-space-only", ["C13"], S, "                if i.isspace():", "                if i == ' ':")
+m("c13-dash-dropped", ["C13"], S, "                if i.isspace():", "                if i.isspace() or i == '-':")
+m("c13-blank-accepted", ["C13"], S, "        prolineContent = float(processed.count(\"P\")) / float(len(processed))\n        if prolineContent > 0.15:", "        prolineContent = float(processed.count(\"P\")) / max(1.0, float(len(processed)))\n        if prolineContent > 0.15:")
+m("c13-len-from-raw", ["C13"], S, "        self.seq = seq.upper()\n        self.len = len(seq)\n", "        self.seq = seq.upper()\n        self.len = len(seq) if not validateSeq else len(seq) + seq.count('P') * 0 + (1 if 'WWW' in seq else 0)\n")
+m("c13-typecheck-isinstance-any", ["C13"], "localcider/backend/backendtools.py", "        if objclass == typeHere:\n            return True\n        else:\n            return False", "        if objclass == typeHere:\n            return True\n        else:\n            return hasattr(obj, 'upper')")
+m("c13-keeps-digit", ["C13"], S, "            if i not in AAs:\n\n                # if we find whitespace", "            if i not in AAs and not i.isdigit():\n\n                # if we find whitespace")
+m("c13-get-length-len-field", ["C13"], P, "        return len(self.SeqObj.seq)\n\n    #...................................................................................#\n    def get_mean_hydropathy", "        return len(self.SeqObj.seq) + 0\n\n    #...................................................................................#\n    def get_mean_hydropathy", kind="keep", undecided_ok=True)
+m("c13-duplicate-letters", ["C13"], S, "                processed = processed + i\n", "                processed = processed + i + (i if pos == 77 else '')\n")
+m("c13-keep-elif-structure", ["C13"], S, "            if i not in AAs:\n\n                # if we find whitespace\n                if i.isspace():", "            if i in AAs:\n                processed = processed + i\n                continue\n            if i not in AAs:\n\n                # if we find whitespace\n                if i.isspace():", kind="keep")
+
+# ------------------------------------------------------------------ C14 (file parser)
+m("c14-digits-kept-error", ["C14"], F, "                elif i in \"1234567890\":", "                elif i in \"123456789\":")
+m("c14-skip-O-U", ["C14"], F, "                if i == \" \":\n", "                if i == \" \" or i in \"OU\":\n")
+m("c14-star-anywhere", ["C14"], F, "        if seq[-1] == \"*\":\n            return seq[0:-1]", "        if \"*\" in seq:\n            return seq.replace(\"*\", \"\")")
+m("c14-two-stars-ok", ["C14"], F, "        if number_of_asterisk > 1:", "        if number_of_asterisk > 2:")
+m("c14-second-header-ok", ["C14"], F, "                if header:\n                    raise SequenceFileParserException(", "                if False:\n                    raise SequenceFileParserException(")
+m("c14-join-with-space", ["C14"], F, "                seq = seq + line\n", "                seq = seq + \" \" + line\n")
+m("c14-prepend", ["C14"], F, "                seq = seq + line\n", "                seq = line + seq\n")
+m("c14-tab-skipped", ["C14"], F, "                if i == \" \":\n", "                if i == \" \" or i == \"\\t\":\n")
+m("c14-no-final-validation", ["C14"], F, "        seq = self.__final_validation(seq)\n", "        seq = seq\n")
+m("c14-header-anywhere", ["C14"], F, "            if line[0] == \">\":", "            if \">\" in line:", undecided_ok=True)
+m("c14-strip-last-two", ["C14"], F, "            return seq[0:-1]", "            return seq[0:-2]")
+m("c14-file-branch-raw", ["C14"], P, "            self.SeqObj = Sequence(parserMachine.parseSeqFile(sequenceFile))", "            self.SeqObj = Sequence(open(sequenceFile).read().strip())")
+m("c14-keep-count-var", ["C14"], F, "        if number_of_asterisk == 0:\n            return seq", "        if number_of_asterisk < 1:\n            return seq", kind="keep")
+m("c14-keep-else", ["C14"], F, "            elif len(line) > 0:\n", "            else:\n", kind="keep")
